@@ -63,7 +63,7 @@ type Config struct {
 	// StartClock[i] > 0 creates replica i with a Lamport clock already at that time.
 	StartClock []int
 	IO         func() iface.IO // codec per world (nil: default)
-	AC         func() accesscontroller.Interface
+	AC         func(replica int) accesscontroller.Interface
 }
 
 func (c *Config) sortFn() iface.EntrySortFn {
@@ -130,7 +130,7 @@ func NewWorld(cfg *Config) *World {
 			opts.IO = cfg.IO()
 		}
 		if cfg.AC != nil {
-			opts.AccessController = cfg.AC()
+			opts.AccessController = cfg.AC(i)
 		}
 		ml := refmodel.NewLog(wr, "X")
 		if i < len(cfg.StartClock) && cfg.StartClock[i] > 0 {
